@@ -180,6 +180,8 @@ def repeated_use(ctx, sims=None):
         h2 = history(rng, aw, dw, nrd, nwr, 8)
         # the second history reads what the first one wrote
         h1[0]['we0'] = 1                      # at least one write, to an address the second history reads
+        if nwr > 1 and h1[0].get('wa1') == h1[0]['wa0']:
+            h1[0]['we1'] = 0                  # (two enabled ports writing one address in one cycle is outside the property)
         if aw <= 4:
             # the last word of the array is written too (the whole-array view below has to show it)
             h1[-1].update({'we0': 1, 'wa0': (1 << aw) - 1, 'wd0': gen.rand_value(rng, dw) | 1})
